@@ -1,4 +1,4 @@
-import PcbV.Lemmas.Heap
+import PcbV.Lemmas.HeapStep
 /-
   C10 — String variables keep their values through any memory history.
 
@@ -15,68 +15,45 @@ import PcbV.Lemmas.Heap
   well-formedness and every readable value, never moves `current` down, and leaves string space
   exactly filled (FRE accounting); `check_free` fails only when the free space after a collection is
   insufficient and leaves every value unchanged in that case; storing a new string.
-  Gap (named in `reset_temporaries_partial`): that `reset_temporaries` never deletes a string that
-  is still referenced rests on the boundary invariant "every variable-owned string lies above
-  `_temp`" through a collection (monotonicity of the relocation); it is an explicit hypothesis here
-  and is validated on every run by the step-by-step correspondence of whole statement histories
-  (`step`, `run`) with the real interpreter.
+  Boundary invariant (deepening round): `collect_keeps_boundary` proves that the relocation done by the
+  collector is monotone and that the re-addressed `_temp` stays below every string that was above it, so
+  "every variable-owned string lies above `_temp`" survives a collection.  With it the invariant
+  `Inv` (well-formed, no pointer into the program text, variable-owned strings above `_temp`,
+  `current ≤ _temp` or string space empty, evaluation stacks unwound) is preserved by every covered
+  statement from any invariant state (`step_preserves_invariant_partial`) and hence along arbitrary
+  histories from a fresh session (`history_invariant_partial`); in every such state
+  `reset_temporaries` is safe without further hypothesis (`reset_temporaries_in_invariant`).
+  Still open: (a) the statements MID$, LSET/RSET and the program-literal assignment `letCode` are not
+  covered by the history theorems (they are by the correspondence); (b) the abstract refinement of
+  whole statements (abs (step s op) = specOp (abs s)) is proved only at the level of the primitives
+  (collector, check_free, store, reset_temporaries), not yet composed per statement.
 -/
 namespace PcbV.C10
 open PcbV PcbV.Heap
 
 /-- On a well-formed heap the collector never meets a detached string (no Python KeyError). -/
-theorem collect_total (s : Heap) (hs : WF s) : ∃ s', collect s = .ok s' := by
-  obtain ⟨es, he⟩ := entriesOf_total s hs (rootLocs s)
-  obtain ⟨tmp, h⟩ := collect_shape s es he
-  exact ⟨_, h⟩
+theorem collect_total (s : Heap) (hs : WF s) : ∃ s', collect s = .ok s' :=
+  Heap.collect_total_lem s hs
 
 /-- **Garbage collection never changes a live value.**  The compacting collector keeps the heap
     well-formed and every scalar, every array element and every value on the evaluation stacks reads
     back exactly what it read before (also when several roots are views of the same cell). -/
 theorem gc_preserves (s s' : Heap) (hs : WF s) (h : collect s = .ok s') :
-    WF s' ∧ absScalars s' = absScalars s ∧ absArrays s' = absArrays s ∧ absStack s' = absStack s := by
-  obtain ⟨t, last, hr, hsh, e1, e2, e3, e4, e5, e6, e7, e8, e9, e10, _, _⟩ := collect_facts s s' hs h
-  obtain ⟨hb, hl, hv⟩ := hr.final
-  have hg : ∀ l, getLoc s' l = getLoc t l := getLoc_congr s' t e8 e9 e10
-  have hd : ∀ p, deref s' p = deref t p := fun p => deref_congr t s' p e5 e6 e7 e1
-  refine ⟨⟨?_, ?_⟩, ?_⟩
-  · rw [e2, e1, top_congr s' t e3 e4]; exact hb
-  · intro l p hp h0 hvs
-    rw [hg] at hp
-    rw [e5] at hvs
-    obtain ⟨b, hb1, hb2⟩ := hl l p hp h0 hvs
-    exact ⟨b, by rw [e1]; exact hb1, hb2⟩
-  · apply abs_eq_of_cells
-    · exact ⟨by rw [e8]; exact hsh.sc, by rw [e9]; exact hsh.ar, by rw [e10]; exact hsh.st⟩
-    · intro l
-      rw [hg, ← hv l]
-      cases getLoc t l with
-      | none => rfl
-      | some p => simp [hd]
+    WF s' ∧ absScalars s' = absScalars s ∧ absArrays s' = absArrays s ∧ absStack s' = absStack s :=
+  Heap.gc_preserves_lem s s' hs h
 
 /-- A collection never loses space: `current` does not move down (strings only move up). -/
 theorem gc_never_loses_space (s s' : Heap) (hs : WF s) (h : collect s = .ok s') :
-    s.current ≤ s'.current ∧ free s ≤ free s' := by
-  obtain ⟨t, last, hr, _, _, e2, _, _, e5, _, _, _, _, _, e11, e12⟩ := collect_facts s s' hs h
-  have := hr.current_ge hs
-  refine ⟨by omega, ?_⟩
-  unfold free used
-  rw [e2, e5, hr.vs, e11, e12]
-  omega
+    s.current ≤ s'.current ∧ free s ≤ free s' :=
+  Heap.gc_never_loses_space_lem s s' hs h
 
 /-- **FRE accounting.**  After a collection string space is filled without gaps from the top:
     `current + (bytes stored) = stack_start`, so FRE = memory top − program/variables/arrays (`used`)
     − string bytes. -/
 theorem fre_accounting (s s' : Heap) (hs : WF s) (h : collect s = .ok s') :
     s'.top = s.top ∧ used s' = used s ∧ s'.current + sumLen s'.strs = s'.top ∧
-    (used s' ≤ s'.current → free s' + used s' + sumLen s'.strs = s'.top) := by
-  obtain ⟨t, last, hr, _, e1, e2, e3, e4, e5, _, _, _, _, _, e11, e12⟩ := collect_facts s s' hs h
-  have htop : s'.top = s.top := by rw [top_congr s' t e3 e4, top_congr t s hr.tot hr.stk]
-  have hfill : s'.current + sumLen s'.strs = s'.top := by rw [e2, e1, htop]; exact hr.fill
-  have hused : used s' = used s := by unfold used; rw [e5, hr.vs, e11, e12]
-  refine ⟨htop, hused, hfill, fun hu => ?_⟩
-  unfold free
-  omega
+    (used s' ≤ s'.current → free s' + used s' + sumLen s'.strs = s'.top) :=
+  Heap.fre_accounting_lem s s' hs h
 
 /-- `check_free`: success leaves room, failure happens only after a collection; in both cases the
     heap stays well-formed and no value changes. -/
@@ -85,34 +62,16 @@ theorem checkFree_sound (size err : Nat) (s : Heap) (hs : WF s) :
     | .ok s' => WF s' ∧ lowMem s' size = false ∧
         absScalars s' = absScalars s ∧ absArrays s' = absArrays s ∧ absStack s' = absStack s
     | .error (e, s') => e = err ∧ collect s = .ok s' ∧ lowMem s' size = true ∧ WF s' ∧
-        absScalars s' = absScalars s ∧ absArrays s' = absArrays s ∧ absStack s' = absStack s := by
-  unfold checkFree
-  by_cases hlow : lowMem s size = true
-  · rw [if_pos hlow]
-    obtain ⟨s1, h1⟩ := collect_total s hs
-    rw [h1]
-    simp only
-    obtain ⟨hw, ha⟩ := gc_preserves s s1 hs h1
-    by_cases hlow1 : lowMem s1 size = true
-    · rw [if_pos hlow1]; exact ⟨rfl, rfl, hlow1, hw, ha⟩
-    · rw [if_neg hlow1]; exact ⟨hw, by simpa using hlow1, ha⟩
-  · rw [if_neg hlow]
-    exact ⟨hs, by simpa using hlow, rfl, rfl, rfl⟩
+        absScalars s' = absScalars s ∧ absArrays s' = absArrays s ∧ absStack s' = absStack s :=
+  Heap.checkFree_sound_lem size err s hs
 
 /-- **Out of memory / Out of string space only when needed**: `check_free` raises its error only
     if, after a collection (which never loses space and fills string space exactly), the free space
     `current − used` is still not larger than the requested size. -/
 theorem oom_only_when_needed (size err e : Nat) (s s' : Heap) (hs : WF s)
     (h : checkFree size err s = .error (e, s')) :
-    e = err ∧ collect s = .ok s' ∧ free s' ≤ size ∧ s'.current + sumLen s'.strs = s'.top := by
-  have := checkFree_sound size err s hs
-  rw [h] at this
-  obtain ⟨h1, h2, h3, _⟩ := this
-  refine ⟨h1, h2, ?_, (fre_accounting s s' hs h2).2.2.1⟩
-  unfold lowMem at h3
-  unfold free
-  simp at h3
-  omega
+    e = err ∧ collect s = .ok s' ∧ free s' ≤ size ∧ s'.current + sumLen s'.strs = s'.top :=
+  Heap.oom_only_when_needed_lem size err e s s' hs h
 
 /-- Storing a new string (`StringSpace.store`, pointer left on the evaluation stack): on success the
     heap is well-formed, no variable changes and the new stack item reads the stored bytes; on failure
@@ -122,80 +81,8 @@ theorem allocPush_sound (b : Bytes) (s : Heap) (hs : WF s) :
     | .ok s' => WF s' ∧ absScalars s' = absScalars s ∧ absArrays s' = absArrays s ∧
         absStack s' = absStack s ++ [b]
     | .error (_, s') => WF s' ∧ absScalars s' = absScalars s ∧ absArrays s' = absArrays s ∧
-        absStack s' = absStack s := by
-  unfold allocPush
-  by_cases hlen : b.length > 255
-  · rw [if_pos hlen]; exact ⟨hs, rfl, rfl, rfl⟩
-  · rw [if_neg hlen]
-    have hc := checkFree_sound b.length Gen.E.out_of_string_space s hs
-    cases hcf : checkFree b.length Gen.E.out_of_string_space s with
-    | error x =>
-      obtain ⟨e, s1⟩ := x
-      rw [hcf] at hc
-      exact ⟨hc.2.2.2.1, hc.2.2.2.2⟩
-    | ok s1 =>
-      rw [hcf] at hc
-      obtain ⟨hw, hlow, ha1, ha2, ha3⟩ := hc
-      simp only
-      unfold lowMem used at hlow
-      simp at hlow
-      have hn : b.length ≤ s1.current := by omega
-      have hv : s1.varStart ≤ s1.current - b.length + 1 := by omega
-      have hwf := hw.storeRaw_push b hn hv
-      have hd : ∀ l p, getLoc s1 l = some p →
-          deref (push (storeRaw s1 b).1 (.own (storeRaw s1 b).2)) p = deref s1 p := by
-        intro l p hp
-        rw [← deref_storeRaw s1 b p hw.blocks hn (hw.live l p hp)]
-        exact deref_congr _ _ p rfl rfl rfl rfl
-      refine ⟨hwf, ?_, ?_, ?_⟩
-      · rw [← ha1]
-        refine absScalars_eq (s := s1) (show _ = _ from rfl) ?_
-        intro i
-        rw [getLoc_push_v, getLoc_storeRaw]
-        cases hp : getLoc s1 (.v (.sc i)) with
-        | none => rfl
-        | some p => simp [hd _ p hp]
-      · rw [← ha2]
-        refine absArrays_eq (s := s1) (show _ = _ from rfl) ?_
-        intro a i
-        rw [getLoc_push_v, getLoc_storeRaw]
-        cases hp : getLoc s1 (.v (.el a i)) with
-        | none => rfl
-        | some p => simp [hd _ p hp]
-      · rw [← ha3]
-        show ((storeRaw s1 b).1.stack ++ [Item.own (storeRaw s1 b).2]).map _ = _
-        rw [List.map_append]
-        congr 1
-        · apply List.map_congr_left
-          intro it hit
-          obtain ⟨k, hk⟩ := List.getElem?_of_mem hit
-          cases it with
-          | own p =>
-            have : getLoc s1 (.s k) = some p := by
-              simp only [getLoc]
-              have : s1.stack[k]? = some (Item.own p) := hk
-              rw [this]
-            exact hd _ p this
-          | ref l =>
-            simp only [itemVal, itemPtr]
-            have hgv : getV (push (storeRaw s1 b).1 (.own (storeRaw s1 b).2)) l = getV s1 l := by
-              have := getLoc_push_v (storeRaw s1 b).1 (.own (storeRaw s1 b).2) l
-              rw [getLoc_storeRaw] at this
-              exact this
-            rw [hgv]
-            cases hp : getV s1 l with
-            | none => simp; rw [deref_zero _ _ rfl, deref_zero _ _ rfl]
-            | some p => simp; exact hd (.v l) p hp
-        · simp only [List.map, itemVal, itemPtr]
-          congr 1
-          by_cases h0 : b.length = 0
-          · rw [deref_zero _ _ (by exact h0)]
-            exact (List.length_eq_zero_iff.mp h0).symm
-          · apply deref_live _ _ _ (by exact h0)
-            · exact hv
-            · show lookup (storeRaw s1 b).1.strs _ = some b
-              rw [(storeRaw_fields s1 b).2.1, if_pos (by omega)]
-              exact lookup_cons_self _ _ _
+        absStack s' = absStack s :=
+  Heap.allocPush_sound_lem b s hs
 
 /-- `reset_temporaries` (delete the temporary left at the top of string space by the previous
     expression, move the boundary): **partial** — safe under the explicit hypothesis that no cell
@@ -308,5 +195,65 @@ theorem stack_leak_counterexample :
     s1.stack = [.own ⟨1, 65020⟩] ∧ (stepOld s2 .freStr).2 = .err crash ∧
     (step (step (step demo (.letE (.sc aS) (.cat (.lit [120]) (.var (.el [82, 36] 50))))).1 (.clear 65534)).1
        .freStr).2 = .val 60300 := by decide +kernel
+
+/-! ### the temporaries boundary through collections and along statement histories -/
+
+/-- **The boundary invariant survives a collection**: if every variable-owned non-empty string lies
+    above `_temp` (`Perm`), then after `collect` the same holds for the re-addressed `_temp`, and
+    `current ≤ _temp`.  More generally every non-empty string that lay above the old boundary lies
+    above the new one, whatever root holds it. -/
+theorem collect_keeps_boundary (s s' : Heap) (hs : WF s) (hp : Perm s) (h : collect s = .ok s') :
+    Perm s' ∧ s'.current ≤ s'.temp ∧
+    (∀ l p0 p, getLoc s l = some p0 → getLoc s' l = some p → 0 < p0.len → s.varStart ≤ p0.addr →
+      s.temp < p0.addr → s'.temp < p.addr) :=
+  ⟨(collect_perm s s' hs hp h).1, (collect_perm s s' hs hp h).2, (collect_boundary s s' hs h).2.1⟩
+
+/-- In every state satisfying the history invariant `reset_temporaries` is safe: the heap stays
+    well-formed and invariant and no variable changes (the hypothesis of
+    `reset_temporaries_partial` is discharged by the invariant). -/
+theorem reset_temporaries_in_invariant (s : Heap) (h : Inv s) :
+    Inv (resetTemps s) ∧ WF (resetTemps s) ∧ (resetTemps s).temp = (resetTemps s).current ∧
+    absScalars (resetTemps s) = absScalars s ∧ absArrays (resetTemps s) = absArrays s := by
+  obtain ⟨hst, hstk, _, _, ha1, ha2⟩ := resetTemps_strong s h.1 h.2
+  refine ⟨⟨hst.core, hstk⟩, hst.wf, ?_, ha1, ha2⟩
+  unfold resetTemps; rfl
+
+/-- Every covered statement (LET with any expression incl. `STR$(FRE(""))`, SWAP, ERASE, DIM,
+    FRE(""), FRE(0), CLEAR ,n, numeric allocation), succeeding or failing, leads from an invariant
+    state to an invariant state; in particular the heap stays well-formed.  **Partial**: MID$,
+    LSET/RSET and `letCode` are not covered. -/
+theorem step_preserves_invariant_partial (s : Heap) (op : Op) (hc : Covered op) (h : Inv s) :
+    Inv (step s op).1 ∧ WF (step s op).1 :=
+  ⟨step_inv op hc s h, (step_inv op hc s h).1.wf⟩
+
+/-- a fresh session satisfies the invariant -/
+theorem init_Inv (cs vs total stk : Nat) (code : List (Nat × Bytes)) : Inv (init cs vs total stk code) := by
+  have hnone : ∀ l, getLoc (init cs vs total stk code) l = none := by
+    intro l
+    cases l with
+    | v l => cases l <;> simp [getLoc, getV, init]
+    | s k => simp [getLoc, init]
+  refine ⟨⟨init_WF cs vs total stk code, fun l p hp => ?_, fun l p hp => ?_, Or.inl rfl⟩, rfl⟩
+  · rw [hnone] at hp; cases hp
+  · rw [hnone] at hp; cases hp
+
+/-- **Arbitrary histories**: after any sequence of covered statements from a fresh session the heap is
+    well-formed, every variable-owned string lies above the temporaries boundary, and
+    `reset_temporaries` is safe.  **Partial** as above (statement subset; value refinement only for
+    the primitives). -/
+theorem history_invariant_partial (cs vs total stk : Nat) (code : List (Nat × Bytes)) (ops : List Op)
+    (hc : ∀ op ∈ ops, Covered op) :
+    Inv (run (init cs vs total stk code) ops) ∧ WF (run (init cs vs total stk code) ops) ∧
+    Perm (run (init cs vs total stk code) ops) ∧ WF (resetTemps (run (init cs vs total stk code) ops)) := by
+  have h := run_inv ops hc _ (init_Inv cs vs total stk code)
+  exact ⟨h, h.1.wf, h.1.perm, (reset_temporaries_in_invariant _ h).2.1⟩
+
+/-- the covered statements are not vacuous: a history with temporaries, a forced collection inside an
+    expression, SWAP, ERASE and CLEAR -/
+example : ∀ op ∈ [Op.letE (.sc aS) (.cat (.lit [97]) .frestr), .swap (.sc aS) (.sc bS), .dim [82, 36] 3,
+    .erase [82, 36], .freStr, .clear 6000], Covered op := by
+  intro op hop
+  simp only [List.mem_cons, List.mem_nil_iff, or_false] at hop
+  rcases hop with h | h | h | h | h | h <;> subst h <;> trivial
 
 end PcbV.C10
